@@ -298,10 +298,16 @@ func (vfNop) Close() error { return nil }
 
 // ---- crypto/tls at call-trace level ----
 
+type vfTLSPeer struct {
+	certName string // the name the peer's certificate is valid for
+	trusted  bool   // issued by a CA the client configuration trusts
+}
+
 type vfTLSRec struct {
 	inner      net.Conn
 	serverName string
 	skipVerify bool
+	peer       vfTLSPeer
 	handshook  bool
 	verified   string
 	closed     int
@@ -310,9 +316,9 @@ type vfTLSRec struct {
 var vfTLSMu sync.Mutex
 var vfTLSConns map[*tls.Conn]*vfTLSRec
 var vfTLSLog []*vfTLSRec
-var vfTLSFail int // 1: HandshakeContext fails, 2: VerifyHostname fails
+var vfTLSPeers []vfTLSPeer // certificates of the successive TLS peers, in dial order
 
-var vfErrTLS = errors.New("vf: injected TLS failure")
+var vfErrTLS = errors.New("vf: certificate verification failed (model)")
 
 func vfTLSClient(conn net.Conn, cfg *tls.Config) *tls.Conn {
 	tc := new(tls.Conn)
@@ -320,6 +326,10 @@ func vfTLSClient(conn net.Conn, cfg *tls.Config) *tls.Conn {
 	vfTLSMu.Lock()
 	if vfTLSConns == nil {
 		vfTLSConns = map[*tls.Conn]*vfTLSRec{}
+	}
+	if len(vfTLSPeers) > 0 {
+		rec.peer = vfTLSPeers[0]
+		vfTLSPeers = vfTLSPeers[1:]
 	}
 	vfTLSConns[tc] = rec
 	vfTLSLog = append(vfTLSLog, rec)
@@ -333,19 +343,23 @@ func vfTLSRecOf(c *tls.Conn) *vfTLSRec {
 	return vfTLSConns[c]
 }
 
+// crypto/tls verifies the peer's chain and, against Config.ServerName, its
+// host name during the handshake itself unless InsecureSkipVerify is set.
 func vfTLSHandshakeContext(c *tls.Conn, ctx context.Context) error {
-	if vfTLSFail == 1 {
+	r := vfTLSRecOf(c)
+	if !r.skipVerify && (!r.peer.trusted || r.serverName != r.peer.certName) {
 		return vfErrTLS
 	}
-	vfTLSRecOf(c).handshook = true
+	r.handshook = true
 	return nil
 }
 
 func vfTLSVerifyHostname(c *tls.Conn, host string) error {
-	if vfTLSFail == 2 {
+	r := vfTLSRecOf(c)
+	if host != r.peer.certName {
 		return vfErrTLS
 	}
-	vfTLSRecOf(c).verified = host
+	r.verified = host
 	return nil
 }
 
